@@ -8,6 +8,15 @@ for d in sorted(glob.glob(HERE + '/seeded/harmless/C*')):
     if m.get('applies') is False:
         res = 'no longer applies (region rewritten by a later /repo fix)'
         na += 1
+    elif 'alarms_own' in m or 'alarms_rot' in m:
+        # latest passes (own property + rotating foreign checks on the current /repo HEAD); the all-twenty matrix of an earlier HEAD is kept in `alarms`
+        bad = dict(m.get('alarms_own') or {}, **(m.get('alarms_rot') or {}))
+        if bad:
+            res = 'ALARM: ' + ', '.join(f"{k} rc={v['rc']}" for k, v in bad.items())
+            alarms += 1
+        else:
+            res = 'quiet (own property' + (' + rotating checks of other properties' if 'alarms_rot' in m else '') + ')' + (' [applied with fuzz]' if m.get('applied_with_fuzz') else '')
+            quiet += 1
     elif m.get('alarms'):
         res = 'ALARM: ' + ', '.join(f"{k} rc={v['rc']}" for k, v in m['alarms'].items())
         alarms += 1
